@@ -147,6 +147,8 @@ def cases(tier, seed):
             lvl = (2 if depth1 else 0) if tier == "quick" else (2 if depth1 else 1)
             if len(b) == 2:
                 lvl = 1
+            if not depth1 and "BatchRepeat" in name:
+                lvl = 0  # (every index of these fails through a deep recursion: known finding, very slow)
             for dbg in (True, False):
                 if not depth1 and tier == "quick" and not dbg:
                     continue
